@@ -97,20 +97,36 @@ def run_word_utf8(C, job):
     E = C.fresh_engine(['idval', 'common'], N=NV)
     E.feas_mode = 'budget'; E.feas_timeout_ms = 2000; E.feas_fresh = True; E.concrete_find = True
     E.max_frames = 200
-    val, c1 = E.sym_str_elems('value', NV, utf8=True)
-    pat, c2 = E.sym_str_elems('pattern', NP, utf8=True)
-    cons = c1 + c2 + [z3.And(pat.at(j) != 0x3F, pat.at(j) != 0x2A) for j in range(NP)]
+    from mirsym.engine import utf8_wf
     f = E.find_method('str', 'matches_word', trait='StrExt')
-    outs = E.run_func(f, [val, pat], cons)
-    C.absorb(E)
-    def vec(m):
-        return {'op': 'c12:condition', 'condition': {'kind': 'event_match', 'key': 'content.body', 'pattern': model_bytes(m, pat).decode('utf-8', 'replace')},
-                'event': {'content': {'body': model_bytes(m, val).decode('utf-8', 'replace')}, 'sender': '@a:x', 'type': 'm.room.message'}, 'ctx': {'user_id': '@me:x', 'room_id': '!r:x'}}
-    n = panic_queries(C, E, f'matches_word on UTF-8 text (value <= {NV} bytes, literal pattern <= {NP} bytes)', outs, cons,
-                      lambda m: f'value {model_bytes(m, val)!r} pattern {model_bytes(m, pat)!r}', vec)
-    C.bounds[f'word_utf8:{NV}x{NP}'] = {'value_bytes': NV, 'pattern_bytes': NP, 'paths': len(outs), 'panic_paths': n}
+
+    def exact(name, L):
+        """every well-formed UTF-8 text of exactly L bytes (concrete length: offsets downstream stay concrete)"""
+        elems = [z3.BitVec(f'{name}{L}_b{j}', 8) for j in range(L)]
+        s_ = Str(z3.K(z3.BitVecSort(64), z3.BitVecVal(0, 8)), bv(0), bv(L), True, L, None, L, elems)
+        return s_, utf8_wf(s_, L)
+    n, npaths, last = 0, 0, None
+    for lv in range(0, NV + 1):
+        for lp in range(0, NP + 1):
+            val, c1 = exact('v', lv)
+            pat, c2 = exact('p', lp)
+            cons = c1 + c2 + [z3.And(pat.at(j) != 0x3F, pat.at(j) != 0x2A) for j in range(lp)]
+            del E.axioms[:]
+            outs = E.run_func(f, [val, pat], cons)
+            C.absorb(E)
+            npaths += len(outs)
+
+            def vec(m, val=val, pat=pat):
+                return {'op': 'c12:condition', 'condition': {'kind': 'event_match', 'key': 'content.body', 'pattern': model_bytes(m, pat).decode('utf-8', 'replace')},
+                        'event': {'content': {'body': model_bytes(m, val).decode('utf-8', 'replace')}, 'sender': '@a:x', 'type': 'm.room.message'}, 'ctx': {'user_id': '@me:x', 'room_id': '!r:x'}}
+            n += panic_queries(C, E, f'matches_word on UTF-8 text (value {lv} bytes, literal pattern {lp} bytes)', outs, cons,
+                               lambda m, val=val, pat=pat: f'value {model_bytes(m, val)!r} pattern {model_bytes(m, pat)!r}', vec)
+            if lv >= 3 and lp >= 1:
+                last = (val, pat, cons, vec)
+    C.bounds[f'word_utf8:{NV}x{NP}'] = {'value_bytes': NV, 'pattern_bytes': NP, 'paths': npaths, 'panic_paths': n}
     # witness with a multi-byte character, through the native build
-    r, m = C.solve('matches_word witness with a multi-byte character', cons + list(E.axioms) + [z3.UGE(val.at(0), 0xC2), z3.UGE(val.ln, 3), z3.UGE(pat.ln, 1)])
+    val, pat, cons, vec = last
+    r, m = C.solve('matches_word witness with a multi-byte character', cons + list(E.axioms) + [z3.UGE(val.at(0), 0xC2)])
     if r == 'sat':
         res = C.native(vec(m))
         C.model_validation += 1
@@ -125,8 +141,8 @@ def body(C):
     quick = C.tier == 'quick'
     jobs = [(c10.run_target, 'mxc_uri'), (c10.run_target, 'key_id_any'),
             (c11.run_nopanic, ('MatrixId::parse_with_sigil', 'c11:parse_sigil')),
-            (run_content_disposition, 4 if quick else 6),
-            (run_word_utf8, (5, 2) if quick else (6, 3))]
+            (run_content_disposition, 4 if quick else 5),
+            (run_word_utf8, (6, 4) if quick else (7, 4))]
     parts = os.environ.get('VERIF_PARTS')
     if parts:
         jobs = [j for j in jobs if any(p in j[0].__name__ or p in repr(j[1]) for p in parts.split(','))]
